@@ -16,6 +16,16 @@
 (*      non-zero weight and holds the newest log position among the        *)
 (*      majority that answered (ties: weight, then host)                   *)
 (*  (d) a data-bearing member whose own log is newer refuses the proposal  *)
+(*  (e) ... and the refusal counts: a candidacy that received a refusal    *)
+(*      "my log is newer" in its proposal round (the reply ERR_REJECT      *)
+(*      reached the candidate, or the candidate's own data-bearing member  *)
+(*      refused for that reason) does not succeed; end to end: the         *)
+(*      proposed position of a successful candidacy is not older than the  *)
+(*      own log of any data-bearing member whose reply reached the         *)
+(*      candidate in the proposal round, nor (positions totally ordered)   *)
+(*      than the position an eligible member reported in the vote round.   *)
+(*      A member that was unreachable during the whole candidacy (request  *)
+(*      or reply lost in both rounds) may legitimately be newer: silent.   *)
 (* "Newest" is the append order of the log: (file index, offset within the *)
 (* file) with the index wrapping around at 2^32 (aof.go:1735, 1925-1937),  *)
 (* then the command time.  Where the positions of the responders are not   *)
@@ -117,6 +127,10 @@ M0 == [ n |-> 0, members |-> <<>>, acc |-> <<>>,
         packed |-> {},       \* engine P: keys whose quorum-acknowledged lock was reported SUCCED
         ppos |-> EmptyFn,    \* engine P: node -> last observed own log position
         agn |-> 0,           \* choices not judged because the positions were cyclic
+        nref |-> 0,          \* proposal rounds in which a refusal "my log is newer" reached the candidate
+        nveto |-> 0,         \* ... of which a majority of members had accepted: the refusal was the only guard
+        nwin |-> 0,          \* successful candidacies judged by clause (e)
+        nheard |-> 0,        \* ... in which every member the winner had to beat was heard in one of the rounds
         nv |-> 0, nd |-> 0, tr |-> 0, name |-> "" ]
 
 Maj(mm) == (mm.n \div 2) + 1
@@ -158,10 +172,13 @@ CheckExp(mm, e) ==
             ELSE mm
 
 -----------------------------------------------------------------------------
-StepBegin(mm, e) == [M0 EXCEPT !.nv = mm.nv, !.nd = mm.nd, !.agn = mm.agn, !.tr = e.idx, !.name = e.name, !.n = e.n,
+StepBegin(mm, e) == [M0 EXCEPT !.nv = mm.nv, !.nd = mm.nd, !.agn = mm.agn, !.nref = mm.nref, !.nveto = mm.nveto, !.nwin = mm.nwin, !.nheard = mm.nheard, !.tr = e.idx, !.name = e.name, !.n = e.n,
                                !.members = e.members, !.acc = e.acc]
 
-Cur0(e) == [round |-> e.round, s |-> l, R |-> <<>>, host |-> 0, aof |-> [x \in {} |-> 0], pid |-> 0, acks |-> {}, live |-> TRUE, selfprop |-> TRUE]
+Cur0(e) == [round |-> e.round, s |-> l, R |-> <<>>, host |-> 0, aof |-> [x \in {} |-> 0], pid |-> 0, acks |-> {}, live |-> TRUE, selfprop |-> TRUE,
+           refused |-> {},   \* [m, own]: members whose refusal "my log is newer" reached the candidate in the proposal round
+           pnewer |-> {},    \* [m, own]: data-bearing members that answered the proposal round and whose own log is newer than the proposed position
+           paccs |-> {}]     \* members whose acceptance of the proposal reached the candidate (the own member included)
 
 StepStart(mm, e) ==
     LET c == e.c IN
@@ -188,7 +205,12 @@ StepStart(mm, e) ==
                           THEN Report(m3, "newer-log-member-accepted-proposal",
                                       [m |-> c, c |-> c, cause |-> IF CmpPos(e.own, e.aof, TRUE) <= 0 THEN "offset-before-index" ELSE "other", own |-> e.own, proposed |-> e.aof])
                           ELSE m3
-                IN [m4 EXCEPT !.cur[c].host = e.host, !.cur[c].aof = e.aof, !.cur[c].pid = e.pid, !.cur[c].selfprop = e.selfok]
+                    \* (e) the candidate's own member answers its own proposal: the newer-log test comes first in DoSelfProposal
+                    selfnew == Has(e, "own") /\ Newer(e.own, e.aof)
+                IN [m4 EXCEPT !.cur[c].host = e.host, !.cur[c].aof = e.aof, !.cur[c].pid = e.pid, !.cur[c].selfprop = e.selfok,
+                              !.cur[c].refused = IF selfnew /\ ~e.selfok THEN {[m |-> c, own |-> e.own]} ELSE {},
+                              !.cur[c].pnewer = IF selfnew THEN {[m |-> c, own |-> e.own]} ELSE {},
+                              !.cur[c].paccs = IF e.selfok THEN {c} ELSE {}]
       [] e.phase = "commit" ->
            IF c \notin DOMAIN mm.cur THEN mm
            ELSE IF e.selfok
@@ -212,6 +234,12 @@ StepDrsp(mm, e) ==
     ELSE LET r == mm.pend[k] IN
          CASE e.phase = "vote" /\ r.res = "" /\ Has(r, "rsp") -> [mm EXCEPT !.cur[e.c].R = Append(@, r.rsp)]
            [] e.phase = "commit" /\ r.res = "" -> [mm EXCEPT !.cur[e.c].acks = @ \cup {e.m}]
+           [] e.phase = "prop" /\ r.phase = "prop" ->
+                LET own == IF Has(r, "own") THEN r.own ELSE [x \in {} |-> 0]
+                    isnew == Has(r, "own") /\ Has(r, "req") /\ Newer(r.own, r.req.aof)
+                IN [mm EXCEPT !.cur[e.c].refused = IF r.res = "ERR_REJECT" THEN @ \cup {[m |-> e.m, own |-> own]} ELSE @,
+                              !.cur[e.c].pnewer = IF isnew THEN @ \cup {[m |-> e.m, own |-> own]} ELSE @,
+                              !.cur[e.c].paccs = IF r.res = "" THEN @ \cup {e.m} ELSE @]
            [] OTHER -> mm
 
 \* (b) a candidacy succeeded
@@ -248,7 +276,25 @@ StepPend(mm, e) ==
                                        [via |-> via, first |-> [c |-> x.c, host |-> x.host, pid |-> x.pid, acks |-> SetToSeq(x.acks)],
                                         second |-> [c |-> w.c, host |-> w.host, pid |-> w.pid, acks |-> SetToSeq(w.acks)],
                                         common |-> SetToSeq(Common)])
-              IN [m2 EXCEPT !.wins = Append(@, w), !.cur[e.c].live = FALSE]
+                  \* (e) the refusal counts
+                  m3 == Check(m2, cu.refused = {}, "candidacy-won-despite-newer-log-refusal",
+                              [c |-> e.c, round |-> cu.round, host |-> e.host, pid |-> e.pid, proposed |-> cu.aof,
+                               refused_by |-> SetToSeq(cu.refused), accepted_by |-> SetToSeq(cu.paccs), commit_acks |-> SetToSeq(cu.acks), members |-> mm.n])
+                  R == cu.R
+                  VNewer == IF DOMAIN cu.aof = {} \/ Cyclic(R, FALSE) THEN {}
+                            ELSE {[m |-> R[i].host, own |-> R[i].aof] : i \in {j \in Eligible(R) : Newer(R[j].aof, cu.aof)}}
+                  m4 == Check(m3, cu.pnewer = {} /\ VNewer = {}, "winner-log-older-than-answering-member",
+                              [c |-> e.c, round |-> cu.round, host |-> e.host, pid |-> e.pid, proposed |-> cu.aof,
+                               newer_in_proposal_round |-> SetToSeq(cu.pnewer), newer_in_vote_round |-> SetToSeq(VNewer)])
+                  \* coverage: was every other data-bearing member heard in the vote round or in the proposal round
+                  Heard == {R[i].host : i \in 1..Len(R)} \cup cu.paccs \cup {x.m : x \in cu.refused} \cup {x.m : x \in cu.pnewer}
+                  Data == {i \in 1..Len(mm.members) : mm.members[i].arb = 0}
+                  m5 == [m4 EXCEPT !.nwin = @ + 1, !.nheard = @ + (IF Data \subseteq Heard THEN 1 ELSE 0)]
+              IN [m5 EXCEPT !.wins = Append(@, w), !.cur[e.c].live = FALSE]
+         ELSE IF e.phase = "prop"
+         THEN LET m1 == IF cu.refused = {} THEN mm
+                        ELSE [mm EXCEPT !.nref = @ + 1, !.nveto = @ + (IF Cardinality(cu.paccs) >= Maj(mm) THEN 1 ELSE 0)]
+              IN IF e.ok THEN m1 ELSE [m1 EXCEPT !.cur[e.c].live = FALSE]
          ELSE IF e.ok THEN mm
          ELSE IF e.phase = "commit" THEN [mm EXCEPT !.cur[e.c].live = FALSE, !.cfail = SetFn(@, e.c, CfailOf(mm, e.c) \cup {l})]
          ELSE [mm EXCEPT !.cur[e.c].live = FALSE]
@@ -262,7 +308,7 @@ StepDiverge(mm, e) == Diverge(mm, [ev |-> "step-not-enabled", op |-> e.op, c |->
 \* engine P (real 3-process cluster, kill -9 of the leader):
 \*  (P1) the survivors never report two leaders at one observation
 \*  (P2) a lock that was acknowledged by a quorum is still held on the leader that emerges
-StepPBegin(mm, e) == [M0 EXCEPT !.nv = mm.nv, !.nd = mm.nd, !.agn = mm.agn, !.tr = e.idx, !.name = e.name, !.n = e.n]
+StepPBegin(mm, e) == [M0 EXCEPT !.nv = mm.nv, !.nd = mm.nd, !.agn = mm.agn, !.nref = mm.nref, !.nveto = mm.nveto, !.nwin = mm.nwin, !.nheard = mm.nheard, !.tr = e.idx, !.name = e.name, !.n = e.n]
 
 StepPObs(mm, e) == Check(mm, Len(e.leaders) <= 1, "two-leaders-after-leader-crash", [leaders |-> e.leaders, t |-> e.t])
 
@@ -296,7 +342,8 @@ Init == l = 1 /\ m = M0
 Next == /\ l <= Len(Trace)
         /\ m' = Step(m, Trace[l])
         /\ l' = l + 1
-        /\ (l = Len(Trace) => PrintT("MONSTAT " \o ToJson([viol |-> m'.nv, diverge |-> m'.nd, agnostic |-> m'.agn])))
+        /\ (l = Len(Trace) => PrintT("MONSTAT " \o ToJson([viol |-> m'.nv, diverge |-> m'.nd, agnostic |-> m'.agn, refusal_rounds |-> m'.nref,
+                                                                  refusal_with_accept_majority |-> m'.nveto, wins_judged |-> m'.nwin, wins_all_data_heard |-> m'.nheard])))
 
 Spec == Init /\ [][Next]_vars
 
